@@ -306,3 +306,5 @@ _patch('C02', 'level_text', 'Front-end pieces (stub-and-log extraction):', 'Name
 _patch('C02', 'level_text', 'Compiler::add_capture returns the position', 'The compile half of an access (varcomp unit, real Compiler::variable_get / variable_set / resolve_local): the innermost local of the name, in its exact slot; a plain local by slot, a captured one through its box with the same slot for read and write, a variable of an enclosing function through the capture table, a module symbol by its module slot — under the resolver guarantees stated as a named precondition. Compiler::add_capture returns the position')
 _patch('C18', 'level_text', 'Only this chain is decided.', 'Exit status (exitpath unit): the main fiber returning from its last frame is the Exit signal with the exit code untouched (Vm::pop_frame), and the status match of Vm::run maps Exit(n) to status n (Ok only for 0) and a runtime or compile error to a failing status. Only these chains are decided.')
 _patch('C18', 'level_note', 'exit-status mapping in Vm::run, exit(n).', 'the Exit native narrowing its argument to u16 (exit(70000), exit(-1)), process::exit in main.rs.')
+_patch('C11', 'level_text', 'and the unconditional argument unwraps of 128 native bodies', 'a Number argument narrowed to an index at the top level of a native body has passed an integrality test (generated I_ obligations; D31 list.insert / list.remove with a fractional or NaN index found and fixed); and the unconditional argument unwraps of 128 native bodies')
+_patch('C06', 'level_text', 'among them both paths of IterNext / IterCurrent', 'among them Launch (launchops unit; D30 found and fixed: the result of a callee that completes at once stayed on the stack), Map, Return and both paths of IterNext / IterCurrent')
